@@ -39,6 +39,34 @@ theorem loop_step (cfg : Cfg) (n : Nat) (ha : AddP cfg n) (hl : LoopP cfg n) : L
             · exact hlines l h'
             · exact this.2 l h'
 
+/-- in `stop_on_continuation` mode the loop never accumulates wrapped lines: it returns at the first one -/
+theorem loop_stop_lines (cfg : Cfg) : ∀ (n : Nat) (sep : Str) (b : Bool) (items : List Item) (line : Str)
+    (lines ls : List Str) (l : Str),
+    toStrLoop n cfg sep b items line lines true = .ok (.done ls l) → ls = lines := by
+  intro n
+  induction n with
+  | zero => intro sep b items line lines ls l h; simp [toStrLoop] at h
+  | succ n ih =>
+    intro sep b items line lines ls l h
+    cases items with
+    | nil => simp [toStrLoop] at h; exact h.1.symm
+    | cons it rest =>
+      simp only [toStrLoop, bind, Except.bind] at h
+      split at h
+      · cases h
+      · split at h
+        · exact ih _ _ _ _ _ _ _ h
+        · split at h
+          · cases h
+          · next v hv =>
+            split at h
+            · simp [pure, Except.pure] at h
+            · next hc =>
+              have := ih _ _ _ _ _ _ _ h
+              simp only [Bool.true_and, Bool.not_eq_true', Bool.not_eq_false] at hc
+              have he : v.snd = [] := by simpa using hc
+              simpa [he] using this
+
 theorem split_step (cfg : Cfg) (n : Nat) (ha : AddP cfg n) (hl : LoopP cfg n) : SplitP cfg (n + 1) := by
   intro line item fits r h hline
   cases item with
@@ -67,7 +95,11 @@ theorem split_step (cfg : Cfg) (n : Nat) (ha : AddP cfg n) (hl : LoopP cfg n) : 
                 · exact this.2 l h'
             · simp [pure, Except.pure] at h
           · simp [pure, Except.pure] at h
-        · cases h
+        · next ls l =>
+          simp [pure, Except.pure] at h; subst h
+          have hnil : ls = [] := loop_stop_lines cfg n _ _ _ _ _ _ _ hlr
+          subst hnil
+          refine ⟨by simpa [LoopGood] using hlg.1, by simp⟩
     · simp [pure, Except.pure] at h
 
 theorem add_step (cfg : Cfg) (n : Nat) (hs : SplitP cfg n) : AddP cfg (n + 1) := by
@@ -92,11 +124,8 @@ theorem add_step (cfg : Cfg) (n : Nat) (hs : SplitP cfg n) : AddP cfg (n + 1) :=
             simp [pure, Except.pure] at h; subst h
             refine ⟨Or.inl ((tooLong_false_iff _ _).1 (by simpa using hfit)), ?_⟩
             intro l hl'; simp at hl'; exact ⟨line, hl', hline⟩
-          · split at h
-            · cases h
-            · next v _ =>
-              simp [pure, Except.pure] at h; subst h
-              exact chunkPath_good cfg line _ hline (fun c hc => ⟨v, hc⟩)
+          · simp [pure, Except.pure] at h; subst h
+            exact chunkPath_good cfg line _ hline (fun c hc => ⟨flatItem item, hc⟩)
 
 theorem width_inv (cfg : Cfg) : ∀ n, AddP cfg n ∧ SplitP cfg n ∧ LoopP cfg n := by
   intro n
